@@ -99,7 +99,7 @@ func (s *seq) allow(gap time.Duration) (shed bool) {
 	for _, f := range judge(p, shed) {
 		s.c.Viol(f.key, f.what, s.witness(fmt.Sprintf("pre-state of the last Allow: %+v", p)))
 	}
-	legal := (!p.OverKnown || p.Over || p.Hot) && float64(p.Flying) > lowBound*p.CapLo
+	legal := (!p.OverKnown || p.Over || p.HotMay) && float64(p.Flying) > lowBound*p.CapLo
 	must := p.OverKnown && p.Over && float64(p.Flying) > p.CapHi && p.AvgLo > p.CapHi
 	if legal {
 		s.nontrivial = true
